@@ -7,6 +7,9 @@ Driver commands of area `life` (C08).  One request line is one whole history:
   (pdoTop / pdoSub / spcall: the default_options dicts of project('top'), project('sub'), subproject('sub'))
 
 defs  `name=spec,name=spec` (spec as in Driver/Options.lean: `kind/default/y/r`)
+  histx <top defs>|<sub defs>|<pdoTop>|<pdoSub>|<spcall>|<n>|(<name>|<defs>|<pdo>|<spcall>){n}|<cmd>|…   the same with n
+        further subprojects; their option files are edited by `xs;<proj>;<name>;<spec>` `xr;<proj>;<name>` `xf;<proj>;<-|0|1>`
+
 cmd   `su;<dict>`  `rc;<dict>`  `cf;<optdict>`  `wi;<dict>`  `es;<0|1>;<name>;<spec>`  `er;<0|1>;<name>`  `co` (truncate coredata.dat)  `fs;<0|1>;<-|0|1>` (option file: deleted / meson.options / meson_options.txt)
       (dict / optdict / keys / values as in Driver/Options.lean)
 
@@ -55,16 +58,20 @@ def parseCmd (f : String) : Option Cmd :=
   | ["er", p, n] => some (.editRemove (p == "1") (decodeStr n))
   | ["co"] => some .corrupt
   | ["fs", p, f] => some (.fileSet (p == "1") (if f == "-" then none else some (f == "1")))
+  | ["xs", p, n, sp] => some (.extra (decodeStr p) (.set (decodeStr n) (parseSpec sp)))
+  | ["xr", p, n] => some (.extra (decodeStr p) (.remove (decodeStr n)))
+  | ["xf", p, f] => some (.extra (decodeStr p) (.file (if f == "-" then none else some (f == "1"))))
   | _ => none
 
 def join (l : List String) : String := ",".intercalate (sortStrs l)
 
-def wlKeys : List Key := [projKey [] sWarningLevel, projKey sSub sWarningLevel]
+def wlKeys (extra : List Str := []) : List Key :=
+  [projKey [] sWarningLevel, projKey sSub sWarningLevel] ++ extra.map (fun n => projKey n sWarningLevel)
 
-def showCore (c : Core) : String :=
+def showCore (c : Core) (extra : List Str := []) : String :=
   let s := c.store
   let pk := c.projectKeys
-  "eff:" ++ join ((pk ++ wlKeys).map (fun k => showK k ++ "=" ++ showR (getValueFor s k))) ++
+  "eff:" ++ join ((pk ++ wlKeys extra).map (fun k => showK k ++ "=" ++ showR (getValueFor s k))) ++
   ";own:" ++ join (pk.filterMap (fun k => (alookup k s.options).bind (fun id => s.heap[id]?.map (fun o => showK k ++ "=" ++ showV o.value)))) ++
   ";aug:" ++ join (s.augments.map (fun p => showK p.1 ++ "=" ++ showV p.2)) ++
   ";yield:" ++ join (pk.filterMap (fun k => (alookup k s.options).bind (fun id => s.heap[id]?.bind (fun o => if o.yielding then some (showK k) else none)))) ++
@@ -104,7 +111,7 @@ def showOut : MesonModel.Life.Out → String
   | .failed _ _ => "fail"
 
 def showObs (x : Dir × MesonModel.Life.Out) : String :=
-  showOut x.2 ++ "#" ++ (match x.1.core with | none => (if x.1.corrupt then "!corrupt" else "-") | some c => showCore c) ++ "#" ++
+  showOut x.2 ++ "#" ++ (match x.1.core with | none => (if x.1.corrupt then "!corrupt" else "-") | some c => showCore c (x.1.more.map (·.name))) ++ "#" ++
   (match x.1.cmdline with
    | none => "-"
    | some cl => ",".intercalate ((cl.filter (fun p => p.1.name != "backend".toList)).map (fun p => showCmdKey p.1 ++ "=" ++ showV p.2))) ++ "#" ++
@@ -122,6 +129,18 @@ def handle (cmd : String) (fs : List String) : String :=
   | "hist", top :: sub :: pdoTop :: pdoSub :: spcall :: cmds =>
     "|".intercalate (runCmds { top := parseDefs top, sub := parseDefs sub, pdoTop := parseDict pdoTop,
                                pdoSub := parseDict pdoSub, spcall := parseDict spcall } cmds)
+  | "histx", top :: sub :: pdoTop :: pdoSub :: spcall :: n :: rest =>
+    -- n further subprojects, four fields each: name, defs, project(default_options), subproject(default_options)
+    let k := n.toNat?.getD 0
+    let rec extras : Nat → List String → List Extra × List String
+      | 0, r => ([], r)
+      | m + 1, nm :: df :: pdo :: spc :: r =>
+        let x := extras m r
+        ({ name := decodeStr nm, defs := parseDefs df, pdo := parseDict pdo, spcall := parseDict spc } :: x.1, x.2)
+      | _ + 1, _ => ([], [])
+    let x := extras k rest
+    "|".intercalate (runCmds { top := parseDefs top, sub := parseDefs sub, pdoTop := parseDict pdoTop,
+                               pdoSub := parseDict pdoSub, spcall := parseDict spcall, more := x.1 } x.2)
   | _, _ => "bad-op"
 
 end Driver.Life
